@@ -56,4 +56,73 @@ example :
         (.convertToCurrent (Sym.ofString "time") (Sym.ofString "s") 7)).out = .error .units := by
   decide +kernel
 
+/-! ### value objects, observers, flags (categories 1, 3; units 2, 5, 7, 8, 9 are just symbols here) -/
+
+/-- object 0 (category 1, unit 7) is registered before any system exists; "a" (1 ↦ 2) is added and becomes
+current; then object 1 (category 3, unit 8) and object 2 (category 1, unit 9) are registered -/
+def withObjects : Mgr := run db0 Mgr.init [.register 1 7, .add 97 65 (some [(1, 2)]) false, .register 3 8, .register 1 9]
+
+-- object 0 followed the first system, object 1 has no default, object 2 was brought to "a" at Register
+example : withObjects.objs = [⟨1, 2, 1, true⟩, ⟨3, 8, 1, true⟩, ⟨1, 2, 1, true⟩] ∧ withObjects.cur = some 1 := by decide
+example : (run db0 Mgr.init [.register 1 7]).objs = [⟨1, 7, 1, true⟩] := by decide
+example : ObjsWf withObjects ∧ MgrWf withObjects := ⟨reachable_ObjsWf db0 _, reachable_MgrWf db0 _⟩
+-- `objects_follow_on_current`: SetCurrent(None) notifies and leaves the objects; a second system selected: they follow
+example : (step db0 withObjects (.setCurrent none)).log = [.current 0] ∧
+    (step db0 withObjects (.setCurrent none)).mgr.objs = withObjects.objs := by decide
+example : (run db0 withObjects [.add 98 66 (some [(1, 5), (3, 6)]) false, .setCurrent (some 2)]).objs
+    = [⟨1, 5, 1, true⟩, ⟨3, 6, 1, true⟩, ⟨1, 5, 1, true⟩] := by decide
+example : specUnit withObjects ⟨1, 7, 1, true⟩ = 2 ∧ specUnit withObjects ⟨3, 7, 1, true⟩ = 7 ∧
+    specUnit withObjects ⟨1, 7, 0, false⟩ = 7 ∧ specUnit Mgr.init ⟨1, 7, 1, true⟩ = 7 := by decide
+-- `default_unit_change_keeps_objects`, `updateObjects_propagates_default` (its hypotheses hold for object 0)
+example : (step db0 withObjects (.setDefaultUnit 1 1 5)).log = [.unitChanged 1 (some 5)] ∧
+    (step db0 withObjects (.setDefaultUnit 1 1 5)).mgr.objs = withObjects.objs ∧
+    (run db0 withObjects [.setDefaultUnit 1 1 5, .updateObjects]).objs
+      = [⟨1, 5, 1, true⟩, ⟨3, 8, 1, true⟩, ⟨1, 5, 1, true⟩] := by decide
+example : withObjects.cur = some 1 ∧ (1 : Sym) ≠ 0 ∧ withObjects.objs[0]? = some ⟨1, 2, 1, true⟩ := by decide
+-- the null system may hold a default while none is current: objects are not touched
+example : (run db0 Mgr.init [.setDefaultUnit 0 1 5, .register 1 7, .updateObjects, .setCurrent none]).objs
+    = [⟨1, 7, 1, true⟩] := by decide
+-- a second Register of the same object is a second wrap; both leave when the object dies; a dead object stays as it is
+example : (step db0 withObjects (.registerAgain 2)).mgr.objs[2]? = some ⟨1, 2, 2, true⟩ := by decide
+example : (run db0 withObjects [.registerAgain 0, .kill 0]).objs[0]? = some ⟨1, 2, 0, false⟩ := by decide
+example : (run db0 withObjects [.kill 0, .setDefaultUnit 1 1 5, .updateObjects, .setCurrent (some 1)]).objs
+    = [⟨1, 2, 0, false⟩, ⟨3, 8, 1, true⟩, ⟨1, 5, 1, true⟩] := by decide
+example : (step db0 (step db0 withObjects (.kill 0)).mgr (.registerAgain 0)).out = .error .other ∧
+    (step db0 (step db0 withObjects (.kill 0)).mgr (.objSetUnit 0 9)).out = .error .other := by decide
+example : (step db0 withObjects (.objSetUnit 1 9)).mgr.objs[1]? = some ⟨3, 9, 1, true⟩ := by decide
+-- `updateObjects_after_setCurrent_id` is not about a trivial situation: without the SetCurrent the call does change objects
+example : updateObjects (step db0 withObjects (.setDefaultUnit 1 1 5)).mgr ≠ (step db0 withObjects (.setDefaultUnit 1 1 5)).mgr := by
+  decide
+
+/-- the observer registered on both callbacks (what the harness does right after construction) -/
+def observed : Mgr := run db0 withObjects [.observeCurrent, .observeUnit]
+
+example : observed.obsCur = true ∧ observed.obsUnit = true ∧ Mgr.init.obsCur = false := by decide
+example : seen observed (step db0 observed (.setDefaultUnit 1 1 5)).log = [.unitChanged 1 (some 5)] ∧
+    seen withObjects (step db0 withObjects (.setDefaultUnit 1 1 5)).log = [] := by decide
+-- `reset_silences`: the manager still invokes its callbacks (its own listener on "a" stayed), nobody receives them
+example : runLog db0 (step db0 observed .resetInstance).mgr [.setDefaultUnit 1 1 5, .setCurrent none]
+      = [.unitChanged 1 (some 5), .current 0] ∧
+    runSeen db0 (step db0 observed .resetInstance).mgr [.setDefaultUnit 1 1 5, .setCurrent none] = [] ∧
+    runSeen db0 (step db0 observed .resetInstance).mgr [.observeCurrent, .setDefaultUnit 1 1 5, .setCurrent none]
+      = [.current 0] ∧
+    runSeen db0 observed [.setDefaultUnit 1 1 5, .setCurrent none] = [.unitChanged 1 (some 5), .current 0] := by decide
+example : (step db0 observed .resetInstance).mgr.heap = observed.heap ∧ (step db0 observed .resetInstance).mgr.cur = some 1 ∧
+    (step db0 observed .resetInstance).mgr.objs = observed.objs := by decide
+-- caption / read-only flag: the null system is read-only and takes a default unit all the same
+example : Mgr.init.heap[0]? = some nullSys ∧ nullSys.readOnly = true ∧
+    (step db0 Mgr.init (.setDefaultUnit 0 1 2)).out = .ok .none ∧
+    (step db0 Mgr.init (.setDefaultUnit 0 1 2)).mgr.heap[0]?.map (·.mapping) = some [(1, 2)] := by decide
+example : (step db0 twoSystems (.setReadOnly 2 false)).mgr.heap[2]?.map (·.readOnly) = some false ∧
+    twoSystems.heap[2]?.map (·.readOnly) = some true ∧
+    (step db0 twoSystems (.setCaption 1 66)).mgr.heap[1]?.map (·.caption) = some 66 ∧
+    (step db0 twoSystems (.setCaption 7 66)).out = .error .other := by decide
+example : (step db0 twoSystems (.sysEq 1 1)).out = .ok (.bool true) ∧ (step db0 twoSystems (.sysEq 1 2)).out = .ok (.bool false) ∧
+    (step db0 twoSystems (.sysEqOther 1)).out = .ok (.bool false) := by decide
+-- the error classes: a rejected template names the system that misses a category
+example : (step db0 twoSystems (.setTemplate [(1, 2)])).out = .error .runtime ∧ invalidSystems twoSystems [1] = [some 98] := by
+  decide
+example : (step db0 Mgr.init (.setSystemClass false)).out = .error .assertion ∧
+    (step db0 Mgr.init (.setSystemClass true)).out = .ok .none := by decide
+
 end Barril.Mgr
